@@ -247,9 +247,15 @@ class Engine:
         cs = list(self.str_consts.values())
         if len(cs) > 1:
             ax.append(z3.Distinct(*cs))
+        from .models import ISABS, HASDD, PNAME
         for s, c in self.str_consts.items():
             ax.append(TRUTHY(c) == z3.BoolVal(len(s) > 0))
             ax.append(c != NONE_U)
+            if s and "/" not in s and s not in ("..", ".") and \
+                    not s.startswith(("b:", "float:")):
+                # a plain file / directory name used as a path component
+                ax.append(z3.And(z3.Not(ISABS(c)), z3.Not(HASDD(c)),
+                                 PNAME(c) == c))
         ax.append(z3.Not(TRUTHY(NONE_U)))
         ax.extend(self.lib.axioms())
         ax.extend(self.registry_axioms())
@@ -440,12 +446,16 @@ class Engine:
             if sort == U:
                 ms = self.heap_arr(st, key + "#ms", MS)[r]
             lst = VList(arr, n, es, ms, lid=("heap", key, str(r)))
+            if es.startswith("ref:"):
+                self._list_heap_facts(st, key)
             return lst
         if shape.startswith("dict:"):
             vs = shape[5:]
             sort = sort_of_shape(vs)
             dom = self.heap_arr(st, key + "#dom", z3.ArraySort(U, BoolS))[r]
             val = self.heap_arr(st, key + "#val", z3.ArraySort(U, sort))[r]
+            if vs.startswith("ref:"):
+                self._dict_heap_facts(st, key)
             return VDict(dom, val, vs, lid=("heap", key, str(r)))
         if shape.startswith("opt:"):
             inner = shape[4:]
@@ -456,6 +466,40 @@ class Engine:
             return VFunc(t=self.heap_arr(st, key, U)[r])
         sort = sort_of_shape(shape)
         return wrap(shape, self.heap_arr(st, key, sort)[r])
+
+    def _dict_heap_facts(self, st, key):
+        """values of a dict of records stored in the heap are allocated
+        objects"""
+        D = st.heap[key + "#dom"]
+        Vv = st.heap[key + "#val"]
+        done = st.ghost.setdefault("__lhf", set())
+        ident = (key, D.get_id(), Vv.get_id())
+        if ident in done:
+            return
+        done.add(ident)
+        r = z3.Const("r!dh", IntS)
+        k = z3.Const("k!dh", U)
+        st.assume(z3.ForAll([r, k], z3.Implies(
+            z3.And(D[r][k], r >= 0, r < st.next_ref),
+            z3.And(Vv[r][k] >= 1, Vv[r][k] < st.next_ref)),
+            patterns=[Vv[r][k]]))
+
+    def _list_heap_facts(self, st, key):
+        """elements of a list of records stored in the heap are allocated
+        objects (allocation discipline): assumed once per heap version"""
+        A = st.heap[key + "#arr"]
+        L = st.heap[key + "#len"]
+        done = st.ghost.setdefault("__lhf", set())
+        ident = (key, A.get_id(), L.get_id())
+        if ident in done:
+            return
+        done.add(ident)
+        r = z3.Const("r!lh", IntS)
+        i = z3.Const("i!lh", IntS)
+        st.assume(z3.ForAll([r, i], z3.Implies(
+            z3.And(0 <= i, i < L[r], r >= 0, r < st.next_ref),
+            z3.And(A[r][i] >= 1, A[r][i] < st.next_ref)),
+            patterns=[A[r][i]]))
 
     def store_field(self, st: State, ref: VRef, field: str, v: V):
         key, shape = self.field_key(ref.cls, field)
@@ -1077,6 +1121,8 @@ class Engine:
         i = z3.simplify(i)
         if z3.is_int_value(i) and i.as_long() < 0:
             j = lst.n + i.as_long()
+        elif st.spec or (z3.is_int_value(i) and i.as_long() >= 0):
+            j = i     # specifications index from the front
         else:
             j = z3.If(i < 0, lst.n + i, i)
         self.require(st, z3.And(0 <= j, j < lst.n), "IndexError", line)
@@ -1944,6 +1990,25 @@ class Engine:
         `Cls.f@e1|e2` only the components at references e1, e2 (evaluated in
         the entry state) may change.  Objects allocated by the call itself
         are not part of the frame."""
+        if fc.fs_effects is not None and "DSTATE" in st.ghost:
+            # the file-system effect of the call is exactly `fs_effects`
+            cur = (st.locals, st.heap, st.ghost)
+            st.locals = dict(st.old["locals"])
+            st.heap = dict(st.old["heap"])
+            og = dict(st.old["ghost"])
+            st.ghost = og
+            try:
+                ds, disk, unknown = self.lib.fs_effect_terms(
+                    st, fc, og["DSTATE"], og["DISK"])
+            finally:
+                st.locals, st.heap, st.ghost = cur
+            pq = z3.Const("p!fe", U)
+            self.oblige(st, "fs-effects(state)", line, z3.ForAll(
+                [pq], st.ghost["DSTATE"][pq] == ds[pq]), None)
+            self.oblige(st, "fs-effects(content)", line, z3.ForAll(
+                [pq], z3.Implies(z3.And([ds[pq] == 2] +
+                                        [pq != u for u in unknown]),
+                                 st.ghost["DISK"][pq] == disk[pq])), None)
         if fc.modifies == ["*"]:
             return
         mods = {}
